@@ -299,6 +299,8 @@ func (e *Env) NFKD(ss []string) (out []string, ok []bool) {
 	for i, s := range ss {
 		if u.Stable(s) {
 			out[i], ok[i] = s, true
+		} else if !utf8.ValidString(s) {
+			ok[i] = false
 		} else {
 			ask = append(ask, s)
 			idx = append(idx, i)
